@@ -111,7 +111,11 @@ def _generate_slice(ns, node):
         else:
             sr = f"[{node.start}]"
     r, s = _generate_expression(ns, node.value)
-    return r + sr, s
+    # A Slice is always unsigned (as a Verilog part-select is); when no select is generated, make
+    # sure a signed value is not seen as signed.
+    if (sr == "") and s:
+        r = f"$unsigned({r})"
+    return r + sr, False
 
 # Print Cat ----------------------------------------------------------------------------------------
 
